@@ -10,6 +10,12 @@ H2 == MkTree({<<"d">>, <<"e">>}, (<<"x">> :> 11) @@ (<<"d","x">> :> 12))
 H3 == MkTree({}, (<<"x">> :> 11))
 
 MCInitTreesH == {H1, H2}
+\* C12: the same place on disk is a file in one change and a folder in another: the file name "n" is
+\* rendered as "e", the folder name "e" too
+H4 == [p \in Paths |-> Absent]
+MCInitTreesH4 == {H4}
+MCExclusivePairs == { << <<"n">>, <<"e">> >> }
+MCNoPairs == {}
 MCInitTreesH1 == {H1}
 
 Behaviour == [init |-> TreePairs(init), limit |-> limit0, trail |-> trail, tainted |-> tainted,
